@@ -502,14 +502,28 @@ func (p *Plugin) appendIndexName(outBuf []byte, event *pipeline.Event) []byte {
 		if value == "@time" {
 			outBuf = append(outBuf, p.time...)
 		} else {
-			value := event.Root.Dig(value).AsString()
-			if value == "" {
-				value = "not_set"
+			node := event.Root.Dig(value)
+			if node.AsString() == "" {
+				outBuf = append(outBuf, "not_set"...)
+			} else {
+				outBuf = appendEscapedValue(outBuf, node)
 			}
-			outBuf = append(outBuf, value...)
 		}
 	}
 	outBuf = append(outBuf, "\"}}"...)
+	return outBuf
+}
+
+// appendEscapedValue appends the node's value JSON-escaped but without the quotes
+// AppendEscapedString puts around strings: the value lands inside the string literal
+// of the bulk action line, so a quote, backslash or newline in it must not end that line.
+func appendEscapedValue(outBuf []byte, node *insaneJSON.Node) []byte {
+	start := len(outBuf)
+	outBuf = node.AppendEscapedString(outBuf)
+	if node.IsString() && len(outBuf)-start >= 2 {
+		copy(outBuf[start:], outBuf[start+1:len(outBuf)-1])
+		outBuf = outBuf[:len(outBuf)-2]
+	}
 	return outBuf
 }
 
